@@ -2,7 +2,7 @@ import IofloModel.Model.HttpMsg
 import IofloModel.Drv.Proto
 /-! driver for the HTTP message parser model (engine `httpmsg`).
 
-request  `<req|rsp> <METHOD> <max> <op> ...`   op = `f<hex>` (msg.extend + parse) | `p` (parse) | `c` (close) |
+request  `<req|rsp>[!] <METHOD> <max> <op> ...`   (`!` = the unrepaired `except HTTPException` of parseMessage)   op = `f<hex>` (msg.extend + parse) | `p` (parse) | `c` (close) |
                                                `n` (makeParser + parse)
 reply    the parser fields, ` | ` separated, in the format of harness/props/c29.py `run_impl`
 -/
@@ -67,10 +67,13 @@ def runOps : St → List String → Option St
 def step (_ : Unit) (line : String) : Unit × String :=
   match words line with
   | k :: m :: mx :: ops =>
-    let kind? : Option Kind := if k = "req" then some .req else if k = "rsp" then some .rsp else none
+    let kind? : Option (Kind × Bool) :=
+      if k = "req" then some (.req, true) else if k = "rsp" then some (.rsp, true)
+      else if k = "req!" then some (.req, false) else if k = "rsp!" then some (.rsp, false) else none
     match kind?, mx.toNat? with
-    | some kind, some max =>
-      match runOps (init kind (m.toList.map Char.toNat) max) ops with
+    | some (kind, cve), some max =>
+      let s0 := init kind (m.toList.map Char.toNat) max
+      match runOps { s0 with core := { s0.core with catchVE := cve } } ops with
       | some s => ((), render s)
       | none => ((), "bad-op")
     | _, _ => ((), "bad-op")
